@@ -113,6 +113,8 @@ def one_system(rec, seedt, force_correlated=False):
         q, exact, disparity, correlated = int(rng.choice([3, 4])), False, False, True
     inputs, y, kinds, coup = make_system(rng, q, N, exact, disparity, correlated)
     kw = options(rng, N)
+    if force_correlated and int(seedt[-1]) % 2 == 0:
+        kw["verbose"] = True
     fs = float(rng.choice([1.0, 100.0]))
     # the same samples in the containers / dtypes callers use: integer-valued data held as int
     # arrays (raw ADC counts), lists, float32
@@ -456,7 +458,7 @@ def run_shard(params, rec):
         return
     for i in range(max(1, params["n"] // 5)):
         collinear_case(rec, [params["seed"], params["shard"], "col", i])
-    for i in range(max(2, params["n"] // 5)):
+    for i in range(max(4, params["n"] // 3)):
         one_system(rec, [params["seed"], params["shard"], "corr", i], force_correlated=True)
     for i in range(max(2, params["n"] // 5)):
         bias_case(rec, [params["seed"], params["shard"], "bias", i])
